@@ -28,7 +28,7 @@ def evidence_dir():
 
 def replay_dir():
     return os.environ.get("HTSIM_REPLAY_DIR") or os.path.join(VERIF, "replays")
-BATCHES = ["K0", "K1", "K2", "K3", "K4", "K5", "K6"]
+BATCHES = ["K0", "K1", "K2", "K3", "K4", "K5", "K6", "K7"]
 TABLES = {2: ["all"], 3: ["all", "linear"], 4: ["all", "linear", "star", "cycle"],
           5: ["all", "linear", "star", "cycle", "T", "Q"], 6: ["all", "linear", "star", "ladder", "E", "H", "Q"]}
 READ_EXCS = ["FileNotFoundError", "PermissionError", "OSError", "UnicodeDecodeError", "MemoryError"]
@@ -39,15 +39,16 @@ BATCH_DOC = {
     "K3": "asynchronous exceptions at library line events (F4) on top of K1",
     "K4": "everything together",
     "K5": "scripted per-op templates: for EVERY op of the alphabet - warm-up, call, (mutate its result, ask again) x2",
+    "K7": "scripted table tours: 9-20 distinct tables in one process with re-visits of recent and old ones, all judged",
     "K6": "scripted per-table fault sweep: for EVERY shipped table, cold - read failure of each kind / interrupt at "
           "seeded points of the load incl. the last line event - then ask again and ask siblings",
 }
 PLAN = {
     # runs per batch; R2 keys per hash seed; R3 replays; determinism seeds; soft wall cap (s)
     # K5: repetitions per op; K6: (read faults per table, interrupts per table)
-    "quick": {"runs": {"K0": 80, "K1": 200, "K2": 100, "K3": 100, "K4": 120}, "k5_reps": 3, "k6": (2, 4),
-              "r2": 24, "r2_single": 3, "r3": 8, "det": 8, "cap": 420},
-    "thorough": {"runs": {"K0": 3000, "K1": 9000, "K2": 5000, "K3": 5000, "K4": 6000}, "k5_reps": 40, "k6": (5, 60),
+    "quick": {"runs": {"K0": 80, "K1": 200, "K2": 100, "K3": 100, "K4": 120}, "k5_reps": 3, "k6": (2, 4), "k7": 16,
+              "r2": 48, "r2_single": 3, "r3": 12, "det": 12, "cap": 420},
+    "thorough": {"runs": {"K0": 3000, "K1": 9000, "K2": 5000, "K3": 5000, "K4": 6000}, "k5_reps": 40, "k6": (5, 60), "k7": 600,
                  "r2": 600, "r2_single": 24, "r3": 200, "det": 64, "cap": 3300},
 }
 CHUNK = 4
@@ -250,9 +251,12 @@ class Check:
                                     "table": f"{kind}{n}-{c}.txt", "fault": f,
                                     "seed": run_seed(self.seed, self.tier, "K6", i), "keep": i < 4, "want_events": True})
                         i += 1
+        for i in range(max(1, int(round(self.plan["k7"] * self.scale)))):
+            out.append({"mode": "generate", "batch": "K7", "i": i, "tier": self.tier,
+                        "seed": run_seed(self.seed, self.tier, "K7", i), "keep": i < 4, "want_events": True})
         # interleave batches so that a truncated run still covers all of them; the potentially long templates
         # (5/6 qubits) go first so that they do not form a tail
-        out.sort(key=lambda j: (0 if (j["batch"] == "K5" and j.get("n", 0) >= 5) else 1, j["i"], j["batch"]))
+        out.sort(key=lambda j: (0 if (j["batch"] == "K7" or (j["batch"] == "K5" and j.get("n", 0) >= 5)) else 1, j["i"], j["batch"]))
         return out
 
     def run_batches(self, pool):
